@@ -93,7 +93,8 @@ TFwd ==
                            \cup (IF c = "nextauto" THEN V("AutoProgressFwd", AutoProgressFwd) ELSE {})
                            \cup V("TraversalOnce", trav))
              /\ drift' = IF E.err # "" THEN {"Error"} ELSE
-                   (IF c = "next" THEN V("SpanEndFwd", SpanEndFwd(E.target)) ELSE V("AutoCountFwd", AutoCountFwd))
+                   (IF c = "next" THEN V("SpanEndFwd", SpanEndFwd(E.target))
+                                    ELSE V("AutoCountFwd", AutoCountFwd) \cup V("AutoDataFwd", AutoDataFwd))
                    \cup (IF last \in BwdKinds THEN V("TurnFwd", AdjFwd) ELSE {})
                    \cup (IF last = "seek" THEN V("StartAtSeekFwd", AdjFwd) ELSE {})
                    \cup V("ValidIffData", ValidIffData)
@@ -118,7 +119,8 @@ TBwd ==
                            \cup (IF c = "prevauto" THEN V("AutoProgressBwd", AutoProgressBwd) ELSE {})
                            \cup V("TraversalOnce", trav))
              /\ drift' = IF E.err # "" THEN {"Error"} ELSE
-                   (IF c = "prev" THEN V("SpanEndBwd", SpanEndBwd(E.target)) ELSE V("AutoCountBwd", AutoCountBwd))
+                   (IF c = "prev" THEN V("SpanEndBwd", SpanEndBwd(E.target))
+                                    ELSE V("AutoCountBwd", AutoCountBwd) \cup V("AutoDataBwd", AutoDataBwd))
                    \cup (IF last \in FwdKinds THEN V("TurnBwd", AdjBwd) ELSE {})
                    \cup (IF last = "seek" THEN V("StartAtSeekBwd", AdjBwd) ELSE {})
                    \cup V("ValidIffData", ValidIffData)
